@@ -67,6 +67,7 @@ func setup(repo, verif string) *Engine {
 	if err := e.load(pats); err != nil {
 		fatal("load: %v", err)
 	}
+	e.expandMods()
 	return e
 }
 
